@@ -41,12 +41,13 @@ type world struct {
 	c     *chain.Chain
 	pools []pinfo
 	lbp   bool // a weight-changing balancer pool exists
+	cw    bool // a CosmWasm (transmuter) pool exists
 }
 
 func bigPow(e int) *big.Int { return new(big.Int).Exp(big.NewInt(10), big.NewInt(int64(e)), nil) }
 
 func build(rt *rapid.T, t *testing.T) *world {
-	c := chain.New(t)
+	c := chain.NewWithTransmuter(t)
 	w := &world{c: c}
 	huge := bigPow(30)
 	for a := 0; a < 3; a++ {
@@ -79,10 +80,15 @@ func build(rt *rapid.T, t *testing.T) *world {
 	nextID := func() uint64 { return c.App.PoolManagerKeeper.GetNextPoolId(c.Ctx) - 1 }
 	kinds := []string{"balancer", "balancer", "stable", "cl", "cl"}
 	n := rapid.IntRange(4, 6).Draw(rt, "nPools")
+	withCW := rapid.IntRange(0, 3).Draw(rt, "cosmwasmPool") == 0
 	for i := 0; i < n; i++ {
 		kind := kinds[i%len(kinds)]
 		if i >= len(kinds) {
 			kind = rapid.SampledFrom([]string{"balancer", "stable", "cl"}).Draw(rt, "kind")
+		}
+		// one world in four replaces its last pool by a CosmWasm pool
+		if i == n-1 && withCW {
+			kind = "cw"
 		}
 		a, b := pair(fmt.Sprintf("p%d", i))
 		fee := osmomath.NewDecWithPrec(rapid.Int64Range(0, 300).Draw(rt, fmt.Sprintf("fee%d", i)), 4)
@@ -126,6 +132,16 @@ func build(rt *rapid.T, t *testing.T) *world {
 				rt.Fatalf("harness: create stableswap pool: %v", r.Err)
 			}
 			w.pools = append(w.pools, pinfo{nextID(), kind, []string{a, b}})
+		case "cw":
+			// a CosmWasm pool (transmuter v3): 1:1 between its two assets while the out-reserve lasts; quotes and swaps are
+			// contract calls behind the same router
+			x, y := amt("cwa"), amt("cwb")
+			id, err := c.CreateTransmuterPool(creator, sdk.NewCoins(coin(a, x), coin(b, y)), fmt.Sprintf("alloy%d", i))
+			if err != nil {
+				rt.Fatalf("harness: %v", err)
+			}
+			w.pools = append(w.pools, pinfo{id, kind, []string{a, b}})
+			w.cw = true
 		default:
 			spread := rapid.SampledFrom(cltypes.AuthorizedSpreadFactors).Draw(rt, "clSpread")
 			msg := clmodel.NewMsgCreateConcentratedPool(creator, a, b, 100, spread)
@@ -699,6 +715,9 @@ func TestPropRouter(t *testing.T) {
 		}
 		if whitelisted {
 			cs.Class("whitelisted")
+		}
+		if kinds["cw"] {
+			cs.Class("route-through-cosmwasm-pool")
 		}
 		if len(ps) >= 2 && len(kinds) >= 2 {
 			cs.NonTrivial(desc + "|" + mode + "|" + amtIn.String())
